@@ -121,6 +121,7 @@ func reportStats(c *core.Ctx, rep *twin.Report) {
 		c.Hist("op_kinds", k, int64(n))
 	}
 	c.Count("D5_late_parent_add_seen", int64(countD5(rep, "late-parent-add")))
+	c.Count("D5_overwritten_by_rename_seen", int64(countD5(rep, "overwritten-by-rename")))
 	c.Count("D5_parent_other_spelling_seen", int64(countD5(rep, "parent-other-spelling")))
 }
 
